@@ -16,10 +16,11 @@ EXPLANATION = (
     "through the bounds-checked BufExt::get; every call site passes a literal prefix size within range. (c) "
     "prefix_string::{encode,decode} pass size-1 to the integer codec, use the lowest flag bit as the Huffman flag on "
     "both sides, and check the declared length against the buffer before copying. Round trips for all strings and "
-    "strictness of Huffman padding are value-level and not decided.")
+    "strictness of Huffman padding are value-level and not decided."
+    " C15-a also tabulates HuffmanDecoder::decode_next by the decisions its paths make: the only clean end is fetch_value's Ok(None); a code without a table entry (EOS) is an error; symbols and sub-tables come from the entry found.")
 # every anchor of these rules lives in the h3 crate: thorough tier repeats them on the feature-less build
 EXTRA_CONFIGS = ["h3-plain"]
-RULES = "C15-a Huffman tables vs RFC 7541 App. B (A11); C15-b integer accumulator bound and truncation (A6/A15); C15-c codec entry points (A11); C15-d end-of-input padding mask evaluated over count 1..8 (extracted-expression evaluation)"
+RULES = "C15-a Huffman tables vs RFC 7541 App. B, decode_next row table (A11/A3); C15-b integer accumulator bound and truncation (A6/A15); C15-c codec entry points (A11); C15-d end-of-input padding mask evaluated over count 1..8 (extracted-expression evaluation)"
 
 HERE = os.path.dirname(os.path.dirname(os.path.abspath(__file__)))
 REF = json.load(open(os.path.join(HERE, "ref", "rfc7541_huffman_lengths.json")))
